@@ -121,3 +121,40 @@ Theorem brute_sums_to_total total attrs : NoDup attrs -> incl attrs D -> sum_var
 Proof. intros NA IA Z. unfold brute. rewrite sum_vars_scale_r. rewrite <- sum_vars_app.
   rewrite (@sum_vars_perm R shape _ _ joint (perm_diff_app' attrs NA IA)). rewrite mul_comm. now apply mul_div. Qed.
 End QP.
+
+(* ---- C08 / C10: consequences of "every answer is a marginal of the one explicit joint" ---- *)
+Section Coherent.
+Variable R : SF.
+Variable shape : nat -> nat.
+Variable D : list nat.
+Variable ncl : nat.
+Variable psi : nat -> tbl R.
+Notation sum_vars := (@sum_vars R shape).
+Notation brute := (@brute R shape D ncl psi).
+Hypothesis D_nodup : NoDup D.
+
+(* two answers agree on the attributes they share: both marginalise to the answer for the shared attributes *)
+Theorem answers_agree total A1 A2 S x : NoDup A1 -> NoDup A2 -> NoDup S -> incl S A1 -> incl S A2 -> incl A1 D -> incl A2 D ->
+  sum_vars (diff A1 S) (brute total A1) x = sum_vars (diff A2 S) (brute total A2) x.
+Proof. intros N1 N2 NS I1 I2 D1 D2.
+  change (@project_cached R shape (brute total A1) A1 S x = @project_cached R shape (brute total A2) A2 S x).
+  rewrite !(project_cached_brute R shape D ncl psi D_nodup); auto. Qed.
+
+(* a potential that vanishes on a declared cell annihilates that cell in EVERY answer whose attributes cover the declared ones *)
+Theorem zero_cell_no_mass total c Z S x : c < ncl -> incl Z S ->
+  (forall y, (forall a, In a Z -> y a = x a) -> psi c y = zero R) ->
+  brute total S x = zero R.
+Proof. intros Hc IZ HZ. unfold BP.brute. rewrite sum_vars_all_zero. apply mul_0_l.
+  intros y A _. unfold BP.joint.
+  assert (E : psi c y = zero R).
+  { apply HZ. intros a Ha. apply A. intro Hd. apply diff_In in Hd. destruct Hd as [_ N]. apply N. auto. }
+  assert (In c (seq 0 ncl)) by (apply in_seq; lia).
+  clear -E H. induction (seq 0 ncl) as [|k l IH]; simpl. contradiction. unfold tmul. destruct H as [->|H].
+  - rewrite E. apply mul_0_l.
+  - rewrite (IH H). apply mul_0_r. Qed.
+
+(* averaging (RDA / IG iterates): marginalisation is linear *)
+Lemma sum_vars_add l (f g : tbl R) : sum_vars l (fun x => add R (f x) (g x)) = fun x => add R (sum_vars l f x) (sum_vars l g x).
+Proof. revert f g. induction l as [|a l IH]; simpl; intros f g; auto.
+  rewrite <- IH. f_equal. extensionality x. unfold sum_var. apply sumn_add. Qed.
+End Coherent.
